@@ -74,6 +74,7 @@ func scrambleData(dvar string) *Node {
 // ---------------------------------------------------------------- generator
 
 type condGen struct {
+	hostH bool // a host builtin is used as a handler somewhere
 	r    *Rand
 	vars []string
 	fpN  int
@@ -200,7 +201,11 @@ func (g *condGen) handlerBind(d int) *Node {
 
 // H generates a handler expression.
 func (g *condGen) H(d int) *Node {
-	switch g.r.Pick([]int{10, 2, 2, 2, 1, 1, 2, 2}) {
+	switch g.r.Pick([]int{10, 2, 2, 2, 1, 1, 2, 2, 2}) {
+	case 8:
+		// the handler is a host builtin (which is itself a fault point)
+		g.hostH = true
+		return A(PickStr(g.r, []string{"sim:hf1", "sim:hf2"}))
 	case 7:
 		// a handler given by a name that is bound to nothing: an error, but
 		// only if and when its binding is selected
@@ -262,10 +267,16 @@ func (condEngine) Gen(r *Rand, tier string) any {
 		c.Forms = append(c.Forms, g.probe(g.F(r.Range(3, 6))))
 	}
 	// arm up to 3 of the fault points
+	if g.fpN == 0 && g.hostH {
+		g.fpN = 1
+	}
 	if g.fpN > 0 {
 		na := r.Pick([]int{2, 5, 3, 2})
 		for i := 0; i < na; i++ {
 			f := FaultSpec{FP: r.Range(1, g.fpN), Hit: r.Pick([]int{0, 8, 2, 1})}
+			if g.hostH && r.Chance(1, 3) {
+				f.FP = r.Range(91, 92)
+			}
 			switch r.Pick([]int{5, 5, 1, 1}) {
 			case 3:
 				// a defective host builtin returns an error value with a Go
@@ -286,6 +297,7 @@ func (condEngine) Gen(r *Rand, tier string) any {
 				}
 			case 1:
 				f.Kind = "panic"
+				f.With = PickStr(r, []string{"", "", "lval", "goerr", "int", "runtime"})
 			default:
 				f.Kind = "nil"
 			}
@@ -403,6 +415,39 @@ func (m *cmodel) raise(cond string, data []mval) *mraise {
 	return &mraise{id: m.raiseN, cond: cond, data: data}
 }
 
+// fpDecide counts a hit of fault point id and says what the fault plan makes
+// of it.
+func (m *cmodel) fpDecide(id int) (*mraise, bool) {
+	m.fpHits[id]++
+	for _, f := range m.faults {
+		if f.FP == id && f.Hit == m.fpHits[id] {
+			switch f.Kind {
+			case "panic":
+				x := m.raise("internal-panic", []mval{{k: mWild}})
+				x.fromPanic = true
+				return x, true
+			case "nil":
+				return m.interpErr(), true
+			default:
+				var data []mval
+				for _, d := range f.Data {
+					if i, err := strconv.Atoi(d); err == nil && strconv.Itoa(i) == d {
+						data = append(data, mval{k: mInt, i: i})
+					} else {
+						data = append(data, mval{k: mStr, s: d})
+					}
+				}
+				cond := f.Cond
+				if cond == "" {
+					cond = "sim-fault"
+				}
+				return m.raise(cond, data), true
+			}
+		}
+	}
+	return nil, false
+}
+
 func (m *cmodel) interpErr() *mraise {
 	r := m.raise("error", []mval{{k: mWild}})
 	r.interp = true
@@ -433,8 +478,8 @@ func (m *cmodel) eval(n *Node, env *menv) (mval, *mraise) {
 		if v, ok := env.get(n.Atom); ok {
 			return v, nil
 		}
-		if n.Atom == "hh" {
-			return mval{k: mFun, fn: &mfun{native: "hh"}}, nil
+		if n.Atom == "hh" || n.Atom == "sim:hf1" || n.Atom == "sim:hf2" {
+			return mval{k: mFun, fn: &mfun{native: n.Atom}}, nil
 		}
 		return mval{}, m.interpErr() // unbound symbol
 	}
@@ -468,32 +513,8 @@ func (m *cmodel) eval(n *Node, env *menv) (mval, *mraise) {
 			}
 		}
 		id, _ := strconv.Atoi(args[0].Atom)
-		m.fpHits[id]++
-		for _, f := range m.faults {
-			if f.FP == id && f.Hit == m.fpHits[id] {
-				switch f.Kind {
-				case "panic":
-					x := m.raise("internal-panic", []mval{{k: mWild}})
-					x.fromPanic = true
-					return mval{}, x
-				case "nil":
-					return mval{}, m.interpErr()
-				default:
-					var data []mval
-					for _, d := range f.Data {
-						if i, err := strconv.Atoi(d); err == nil && strconv.Itoa(i) == d {
-							data = append(data, mval{k: mInt, i: i})
-						} else {
-							data = append(data, mval{k: mStr, s: d})
-						}
-					}
-					cond := f.Cond
-					if cond == "" {
-						cond = "sim-fault"
-					}
-					return mval{}, m.raise(cond, data)
-				}
-			}
+		if x, fired := m.fpDecide(id); fired {
+			return mval{}, x
 		}
 		if head == "sim:fpo" {
 			return m.eval(args[1], env)
@@ -701,6 +722,16 @@ func quoteVal(n *Node) mval {
 func (m *cmodel) callFun(f *mfun, args []mval) (mval, *mraise) {
 	if f == nil {
 		return mval{}, m.interpErr()
+	}
+	if f.native == "sim:hf1" || f.native == "sim:hf2" {
+		if len(args) < 1 {
+			return mval{}, m.interpErr()
+		}
+		m.stats["reach_host_builtin_as_handler"]++
+		if x, fired := m.fpDecide(map[string]int{"sim:hf1": 91, "sim:hf2": 92}[f.native]); fired {
+			return mval{}, x
+		}
+		return mval{k: mInt, i: len(args) - 1}, nil
 	}
 	if f.native == "hh" {
 		if len(args) < 1 {
